@@ -323,8 +323,13 @@ func (c *conn) closeChannels() {
 	}
 	c.channelsClosed.Store(true)
 
-	c.channels.Range(func(_ bin.Bin128, ch internalChannel) bool {
-		ch.free()
+	c.channels.Range(func(id bin.Bin128, _ internalChannel) bool {
+		// Free only the channels deleted here, other channels are freed
+		// by the send/receive loops or createChannel.
+		ch, ok := c.channels.Delete(id)
+		if ok {
+			ch.free()
+		}
 		return true
 	})
 }
@@ -345,10 +350,13 @@ func (c *conn) createChannel() (Channel, bool, status.Status) {
 
 	// Free on error
 	done := false
+	deleted := true // false when the channel has been deleted and freed by the connection
 	defer func() {
 		if !done {
 			ch.Free()
-			ch.free()
+			if deleted {
+				ch.free()
+			}
 		}
 	}()
 
@@ -358,7 +366,7 @@ func (c *conn) createChannel() (Channel, bool, status.Status) {
 
 	// Check again
 	if c.channelsClosed.Load() {
-		c.channels.Delete(id)
+		_, deleted = c.channels.Delete(id)
 		return nil, false, statusConnClosed
 	}
 
